@@ -98,6 +98,20 @@ def check(ctx, phi, edge, mask, step, case, tag, container=True):
             if bool(r) != g:
                 ctx.violation('is_good', 'is_good(%s, phase_edge=%.3g) = %s, predicate says %s' % (np.round(phi[s:e], 3).tolist()[:10], edge, r, g), case)
                 return
+            if ctx.evaluations % 5 == 0:
+                # the separate checks: kept by the caller (untouched) and looked at again after later calls
+                seg = phi[s:e]
+                checks = C.is_good(seg.copy(), ret_all_checks=True, phase_edge=edge)
+                crit = [bool(np.all(np.diff(seg) > 0)), bool(0 <= seg[0] <= edge), bool(2 * np.pi - edge <= seg[-1] <= 2 * np.pi), True]
+                ctx.count('separate_checks_compared')
+                if [bool(v) for v in np.asarray(checks).reshape(-1)] != crit:
+                    ctx.violation('is_good-separate-checks', 'is_good(..., ret_all_checks=True) = %s, the documented criteria give %s (phase %s, phase_edge %.3g)'
+                                  % (np.asarray(checks).astype(int).tolist(), [int(v) for v in crit], np.round(seg, 3).tolist()[:10], edge), case)
+                    return
+                HELD.append((checks, crit, case))
+                if len(HELD) >= 30:
+                    if not recheck_held(ctx):
+                        return
     if container and segs and mask is None:
         # containers built earlier must still report their own flags after newer ones exist
         for (ocyc, opreds, oedge) in list(OLD):
@@ -137,6 +151,43 @@ def check(ctx, phi, edge, mask, step, case, tag, container=True):
             ctx.count('container_cases_where_edge_matters')
 
 
+HELD = []
+
+
+def recheck_held(ctx):
+    ok = True
+    for checks, crit, case in HELD:
+        ctx.count('held_check_vectors_rechecked')
+        if [bool(v) for v in np.asarray(checks).reshape(-1)] != crit:
+            ctx.violation('result-changed-after-return', 'a vector of separate checks returned by is_good earlier (and not touched by the caller) now reads %s, '
+                          'its own segment gives %s: later calls rewrote it' % (np.asarray(checks).astype(int).tolist(), [int(v) for v in crit]), case)
+            ok = False
+            break
+    del HELD[:]
+    return ok
+
+
+def thread_cases(seed):
+    """Good-cycle labelling and containers for different phase series (good and bad cycles mixed) from different threads at once."""
+    from emd import cycles as C
+    r = np.random.default_rng(seed)
+    calls = []
+    for k in range(4):
+        ph = gens.synthetic_phase(r, ncycles=int(r.integers(150, 300)), noise=float(gens.pick(r, [0, .1, .2])), reversals=bool(k % 2))
+        if k < 2:
+            calls.append((lambda p: (lambda: C.get_cycle_vector(p.copy(), return_good=True)))(ph))
+        else:
+            calls.append((lambda p: (lambda: np.asarray(C.Cycles(p.copy()).metrics['is_good'], dtype=float)))(ph))
+    return calls, {'seed': int(seed)}
+
+
+def thread_check(ctx, seed):
+    from ..monitors import thread_probe
+    calls, tcase = thread_cases(seed)
+    with quiet():
+        return thread_probe(ctx, 'get_cycle_vector(return_good=True) / Cycles', calls, 8, tcase, interval=1e-6)
+
+
 def masks_for(rng, n):
     m1 = rng.random(n) > .05
     m2 = np.ones(n, dtype=bool)
@@ -148,6 +199,8 @@ def masks_for(rng, n):
 def run_shard(ctx):
     rng = ctx.rng
     idx = 0
+    if ctx.shard % 4 == 3:
+        thread_check(ctx, int(rng.integers(1 << 30)))
     for L in range(2, MAXLEN[ctx.tier] + 1):
         for seq in itertools.product(ALPHA, repeat=L):
             idx += 1
@@ -219,6 +272,13 @@ def run_shard(ctx):
                 k = int(rng.integers(3, 9))
                 inner = np.sort(rng.uniform(a + 1e-3, b - 1e-3, k - 2)) if b - a > 1e-2 else np.array([])
                 probe.append(np.r_[a, inner, b])
+            if rng.random() < .3:
+                # strictness of "increasing": a cycle that starts at (or next to) 0 and creeps up by less than machine epsilon first
+                tiny = float(gens.pick(rng, [5e-324, 1e-300, 1e-17, 2e-16, 1e-16]))
+                a0 = float(gens.pick(rng, [0.0, 0.0, 1e-3]))
+                a1 = a0 + tiny if a0 == 0.0 else float(np.nextafter(a0, 1))
+                probe.append(np.r_[a0, a1, np.sort(rng.uniform(.01, 2 * np.pi - edge - .01, 4)), 2 * np.pi - edge / 2])
+                ctx.count('sub_epsilon_increment_cases')
             phi2 = np.concatenate(probe)
             ctx.count('edge_probing_cases')
             check(ctx, phi2, edge, None, STEP, {'kind': 'c13', 'phase': phi2, 'phase_edge': edge, 'mask': None, 'phase_step': STEP}, 'edge-probe')
@@ -238,6 +298,11 @@ def finalize(agg, tier):
 
 
 def replay(ctx, case):
+    if case.get('kind') == 'threads':
+        for _ in range(5):
+            if not thread_check(ctx, case['seed']):
+                break
+        return
     if case.get('kind') == 'c13multi':
         from emd import cycles as C
         P = np.asarray(case['phase'], float)
